@@ -177,6 +177,8 @@ void c13_curve(vf::Tape & t, vf::Ctx & ctx)
       const double sX = static_cast<double>(std::max<LD>(1, maxabs<LD>(R.X)));
       // outputs of order <= K-1 agree from both sides: 64 eps * scale + |next derivative| * (tr - tl) (x4 for safety)
       ctx.le("knot: value continuous", static_cast<double>(maxabs<LD>(MatL(mat_of(yl) - mat_of(yr)))), 64 * eps * sX + 4 * sX * mv * delta + 1e-300);
+      // the value-only overload takes a separate code path: same value on and next to the knot
+      ctx.require("knot: value independent of optional outputs", coeffs_of(bs(tl)) == coeffs_of(yl) && coeffs_of(bs(tr)) == coeffs_of(yr) && coeffs_of(bs(tk)) == coeffs_of(bs(tk, vl, al)));
       if (K >= 2) ctx.le("knot: velocity continuous (K>=2)", static_cast<double>((vl - vr).cwiseAbs().maxCoeff()), 64 * eps * std::max(mv, 1.0 / dt) * std::max(1.0, std::abs(tk) / dt) + 4 * (ma + mv * mv) * delta + 1e-300);
       if (K >= 3) ctx.le("knot: acceleration continuous (K>=3)", static_cast<double>((al - ar).cwiseAbs().maxCoeff()), 64 * eps * std::max(ma, 1.0 / (dt * dt)) * std::max(1.0, std::abs(tk) / dt) + 4 * (mj + 3 * ma * mv + mv * mv * mv) * delta + 1e-300);
       nontriv = true;
